@@ -67,7 +67,7 @@ def logu(rng, lo, hi):
     return float(np.exp(rng.uniform(np.log(lo), np.log(hi))))
 
 
-def build_mapper(ctx, rng, kind, lattice=False, far=False):
+def build_mapper(ctx, rng, kind, lattice=False, far=False, dup=False):
     aa = ctx.aa
     H, W = int(rng.integers(3, 7)), int(rng.integers(3, 7))
     m, fam = gen.random_mask(rng, H, W, family=str(rng.choice(["dense", "all_unmasked", "bernoulli", "holes"])))
@@ -100,8 +100,13 @@ def build_mapper(ctx, rng, kind, lattice=False, far=False):
             V = V[rng.permutation(len(V))] if rng.random() < 0.5 else V
         else:
             V = gen_aa.delaunay_vertices(rng, src.min(0), src.max(0), int(rng.integers(5, 21)), spread=float(rng.uniform(0.8, 1.3)))
+            if dup:
+                # a vertex listed twice (two image-plane mesh points traced onto the same source position): the triangulation
+                # leaves the repeat out, it has no neighbouring pairs
+                ks = rng.choice(len(V), size=int(rng.integers(1, 3)), replace=False)
+                V = np.vstack([V, V[ks]])
         mesh = aa.Mesh2DDelaunay(values=V)
-        desc = {"kind": "del", "vertices": V, "lattice": bool(lattice)}
+        desc = {"kind": "del", "vertices": V, "lattice": bool(lattice), "repeated_vertex": bool(dup)}
     mg = aa.MapperGrids(mask=mask, source_plane_data_grid=aa.Grid2DIrregular(values=src), source_plane_mesh_grid=mesh, adapt_data=adapt)
     mp = aa.Mapper(mapper_grids=mg, over_sampler=osamp, regularization=None)
     return mp, desc, m
@@ -137,14 +142,19 @@ def schemes(ctx, rng, kind):
     reg = ctx.aa.reg
     c = lambda: logu(rng, 0.01, 100.0)
     s = lambda: float(rng.uniform(0.2, 3.0))
+    tie = rng.random() < 0.3          # inner and outer coefficient exactly equal (as in the constructor defaults 1.0 / 1.0)
+    ci = c()
+    co = ci if tie else c()
+    if tie and rng.random() < 0.3:
+        ci = co = 1.0
     out = [("Constant", reg.Constant(coefficient=c())), ("ConstantZeroth", reg.ConstantZeroth(coefficient_neighbor=c(), coefficient_zeroth=c())),
            ("Zeroth", reg.Zeroth(coefficient=c())),
-           ("AdaptiveBrightness", reg.AdaptiveBrightness(inner_coefficient=c(), outer_coefficient=c(), signal_scale=s())),
+           ("AdaptiveBrightness", reg.AdaptiveBrightness(inner_coefficient=ci, outer_coefficient=co, signal_scale=s())),
            ("BrightnessZeroth", reg.BrightnessZeroth(coefficient=c(), signal_scale=s())),
            ("GaussianKernel", reg.GaussianKernel(coefficient=c(), scale=None)), ("ExponentialKernel", reg.ExponentialKernel(coefficient=c(), scale=None))]
     if kind == "del":
         out += [("ConstantSplit", reg.ConstantSplit(coefficient=c())),
-                ("AdaptiveBrightnessSplit", reg.AdaptiveBrightnessSplit(inner_coefficient=c(), outer_coefficient=c(), signal_scale=s()))]
+                ("AdaptiveBrightnessSplit", reg.AdaptiveBrightnessSplit(inner_coefficient=co, outer_coefficient=ci, signal_scale=s()))]
     return out
 
 
@@ -206,7 +216,8 @@ def run_mesh(ctx, i):
     kind = "rect" if i % 2 == 0 else "del"
     lattice = kind == "del" and i % 8 == 3
     far = (i % 8 in (1, 6))
-    ok, res = ctx.guarded("mapper.construct", lambda: build_mapper(ctx, rng, kind, lattice, far))
+    dup = kind == "del" and i % 8 == 5
+    ok, res = ctx.guarded("mapper.construct", lambda: build_mapper(ctx, rng, kind, lattice, far, dup))
     if not ok:
         return
     mp, desc, m = res
@@ -238,7 +249,7 @@ def run_mesh(ctx, i):
             continue
         offdiag = bool(np.abs(Hm - np.diag(np.diag(Hm))).max() > 0)
         ctx.case(name, sorted(params.items()), _np(mp.source_plane_mesh_grid), nontrivial=(int(mp.params) >= 4 and offdiag),
-                 cls=["scheme:" + name, "mesh:" + kind + ("_lattice_vertices" if desc.get("lattice") else "")] + (["source_plane_far_from_origin"] if far else []) + (["nonsquare_mesh"] if kind == "rect" and desc["shape"][0] != desc["shape"][1] else []),
+                 cls=["scheme:" + name, "mesh:" + kind + ("_lattice_vertices" if desc.get("lattice") else "") + ("_repeated_vertex" if desc.get("repeated_vertex") else "")] + (["source_plane_far_from_origin"] if far else []) + (["nonsquare_mesh"] if kind == "rect" and desc["shape"][0] != desc["shape"][1] else []),
                  sample=lambda: {"scheme": name, "params": params, "mesh": desc["shape"] if kind == "rect" else "delaunay %d vertices" % len(desc["vertices"]),
                                  "min_eig": float(np.linalg.eigvalsh((Hm + Hm.T) / 2).min())})
 
